@@ -71,6 +71,29 @@ def chk_singleton_law(diff_holder):
     return chk
 
 
+def chk_model_verdict(diff_holder):
+    """C02 / C01, justified by theorems C02_collection_is_conjunction_of_items, C02_nested_*_is_direct and C01_*: the model's
+    verdict for a call IS the (short-circuit) conjunction over everything the structure contains, and it does not depend on
+    the evaluation history (run_pure). An implementation verdict that differs from it is therefore a violation of the
+    property on this input. Panics (model says the call panics) are not judged."""
+    def chk(case, top, calls, segs):
+        ml = diff_holder[0].current_model_line if diff_holder[0] is not None else None
+        if not ml: return None
+        try:
+            mt = [int(t) for t in ml.split()]
+        except ValueError:
+            return None
+        msegs = split_out(mt, calls)
+        if msegs is None: return None
+        for i, (a, b) in enumerate(zip(segs, msegs)):
+            if b["res"] in (-999, -888) or a["res"] == -999: continue
+            if a["res"] != b["res"]:
+                return (f"call {i}: verdict {a['res']} but the conjunction over everything the structure contains (proved equal to the model's verdict) is {b['res']} "
+                        f"(1 true, 0 false, -1 error); the implementation evaluated {len(a['log'])} causaloids, the model {len(b['log'])}")
+        return None
+    return chk
+
+
 def chk_trace(case, top, calls, segs):
     for i, s in enumerate(segs):
         if s["res"] == -999: continue
@@ -114,7 +137,7 @@ def run_property(pid, props_file, gen_cases, checks, rule, check_entry=None, mod
     bins = builds(run)
     cases, dist = gen_cases(run)
     holder = [None]
-    checks = [c(holder) if getattr(c, "__name__", "") == "chk_singleton_law" else c for c in checks]
+    checks = [c(holder) if getattr(c, "__name__", "") in ("chk_singleton_law", "chk_model_verdict") else c for c in checks]
     d = Differential(run, bins, (lambda c: "causal_model_entry") if model else None, None,
                      check_entry=(lambda c: check_entry) if check_entry else None,
                      oracle=python_oracle(checks),
@@ -143,7 +166,7 @@ def mk_replay(pid, checks, check_entry=None, model=True):
     def replay(path):
         run = Run(pid); ensure_driver(); bins = builds(run)
         holder = [None]
-        checks2 = [c(holder) if getattr(c, "__name__", "") == "chk_singleton_law" else c for c in checks]
+        checks2 = [c(holder) if getattr(c, "__name__", "") in ("chk_singleton_law", "chk_model_verdict") else c for c in checks]
         d = Differential(run, bins, (lambda c: "causal_model_entry") if model else None, None,
                          check_entry=(lambda c: check_entry) if check_entry else None, oracle=python_oracle(checks2),
                          harness_head=lambda c: "causal_%d" % c.meta.get("cont", 1))
